@@ -82,13 +82,30 @@ Fixpoint esize (e : expr) : nat :=
   | EAnd a b | EOr a b => S (esize a + esize b)
   end.
 
+Fixpoint expr_eqb (a b : expr) : bool :=
+  match a, b with
+  | EId x, EId y => str_eqb x y
+  | ESel q p, ESel q' p' => quant_eqb q q' && str_eqb p p'
+  | ENot x, ENot y => expr_eqb x y
+  | EAnd x1 x2, EAnd y1 y2 | EOr x1 x2, EOr y1 y2 => expr_eqb x1 y1 && expr_eqb x2 y2
+  | _, _ => false
+  end.
+
+(* the harness' speller is cross-checked inside Coq: the reference reader of the specification
+   reads the generated text back as exactly the generating expression *)
+Definition reads_back (s : str) (e : expr) : bool :=
+  match lex s [] with
+  | Ok ts => match ref_parse ts with Some e' => expr_eqb e e' | None => false end
+  | _ => false
+  end.
+
 (* suite spell: (detection names, condition text, generating expression, impl parse(False),
    impl .parsed, impl truth table) *)
 Definition judge_spell
   (c : list str * str * expr * outcome ptree * outcome (option ctree) * option (list bool)) : N :=
   let '(dets, s, e, iparse, ipost, itable) := c in
   bits (agree dets s iparse ipost itable)
-       (spec_expr dets e iparse ipost itable)
+       (spec_expr dets e iparse ipost itable && (negb (wf_expr e) || reads_back s e))
        (wf_expr e && defined dets e && inhabited dets e)
        (Nat.ltb 1 (esize e) || match e with ESel _ _ => true | _ => false end).
 
